@@ -12,9 +12,8 @@ import Pog.Model.Fresh
       imports_order_independent / imports_set_function      full   (both renderings sort everything)
       init_exports_order_independent                        partial (hypothesis: distinct `IRSchema.name`s)
       init_exports_duplicate_name_counterexample            ✗      (stable sort on equal keys keeps dict order)
-      url_vars_unsorted_counterexample / url_vars_order_dependent   ✗   the signature follows the iteration
-                                                                   order of a python `set` (hash seed)
-      url_vars_sorted_fix                                    what `sorted(url_vars)` would give
+      url_vars_order_independent (F18 repaired)              full   the signature is a function of the SET of path variables
+      url_vars_loop_is_order_sensitive                       why the `sorted(...)` is needed (the loop alone follows the iteration order)
 
     the non-force decision  (FULL ✗:  showDiffs old new = false ↔ old and new are the same tree)
       show_diffs_exact                                       the exact condition `_show_diffs` tests
@@ -81,21 +80,26 @@ theorem init_exports_duplicate_name_counterexample :
     [a, b].Perm [b, a] ∧ initExports [a, b] ≠ initExports [b, a] := by
   decide
 
-/-! ## path variables: `set` iteration order reaches the method signature -/
+/-! ## path variables: the `set` of URL variables is iterated in sorted order (F18 repaired) -/
 
-/-- ✗ `extract_url_variables` returns a `set`; `_ensure_path_variables_as_params` appends the
-    undeclared variables in its iteration order.  For two undeclared variables both orders occur
-    (the order of a `set` of `str` depends on `PYTHONHASHSEED`) and give different parameter lists. -/
-theorem url_vars_unsorted_counterexample :
-    finalParams [] ["tenant".toList, "user".toList] ≠ finalParams [] ["user".toList, "tenant".toList] ∧
-    finalParams [] ["tenant".toList, "user".toList] =
+/-- `extract_url_variables` returns a `set`; `_ensure_path_variables_as_params` now iterates `sorted(url_vars)`, so the parameter list
+    (and with it the generated signature) is a function of the SET of variables: whatever order the set is handed over in
+    (`PYTHONHASHSEED`), the result is the same.  All inputs. -/
+theorem url_vars_order_independent (declared : List ParamInfo) {xs ys : List Str} (h : ∀ v, v ∈ xs ↔ v ∈ ys) :
+    codeParams declared xs = codeParams declared ys := by
+  unfold codeParams
+  rw [sortU_congr h]
+
+/-- The shape that used to differ between hash seeds. -/
+theorem url_vars_order_independent_example :
+    codeParams [] ["user".toList, "tenant".toList] = codeParams [] ["tenant".toList, "user".toList] ∧
+    codeParams [] ["user".toList, "tenant".toList] =
       [⟨"tenant".toList, true, "tenant".toList⟩, ⟨"user".toList, true, "user".toList⟩] := by
   decide
 
-/-- General form: when the variables are undeclared and their sanitised names are distinct, the
-    resulting parameter list determines the iteration order — two different orders ALWAYS give two
-    different signatures. -/
-theorem url_vars_order_dependent (declared : List ParamInfo) (xs ys : List Str)
+/-- Why the `sorted(...)` is needed: the loop itself (`finalParams`, fed an arbitrary iteration order) gives two different parameter
+    lists for two different orders of undeclared variables with distinct sanitised names - ALWAYS. -/
+theorem url_vars_loop_is_order_sensitive (declared : List ParamInfo) (xs ys : List Str)
     (hx1 : ∀ v ∈ xs, sanMethod v ∉ declared.map (·.name)) (hx2 : (xs.map sanMethod).Nodup)
     (hy1 : ∀ v ∈ ys, sanMethod v ∉ declared.map (·.name)) (hy2 : (ys.map sanMethod).Nodup) :
     finalParams declared xs = finalParams declared ys ↔ xs = ys := by
@@ -107,12 +111,6 @@ theorem url_vars_order_dependent (declared : List ParamInfo) (xs ys : List Str)
 
 example : (∀ v ∈ ["tenant".toList, "user".toList], sanMethod v ∉ ([] : List ParamInfo).map (·.name)) ∧
     (["tenant".toList, "user".toList].map sanMethod).Nodup := by decide
-
-/-- Where the iteration order comes from a position-independent source the result is a function
-    of the set: iterating `sorted(url_vars)` would make the signature deterministic. -/
-theorem url_vars_sorted_fix (declared : List ParamInfo) {xs ys : List Str} (h : ∀ v, v ∈ xs ↔ v ∈ ys) :
-    finalParams declared (sortU xs) = finalParams declared (sortU ys) := by
-  rw [sortU_congr h]
 
 /-- `extract_url_variables` on a template with four variables. -/
 example : extractUrlVars "/t/{tenant}/u/{user}/{}/{a{b}".toList
